@@ -19,6 +19,15 @@ func gen(g *vh.Gen) {
 		stream := smtpd.GenDialogue(g, c, pool, o)
 		g.Emit("smtp", append(c.Fields(), vh.H(stream))...)
 	}
+	// clients that do not pipeline everything: the bytes after a DATA command (or after every line, or after some
+	// lines) reach the server only when it has read what came before - the block and whatever the client queued behind it
+	// then arrive together
+	ol := smtpd.Opts{Garbage: 0.04, MaxBody: 80}
+	for i := 0; i < g.N(40, 2000); i++ {
+		c, pool := smtpd.GenCfg(g, ol)
+		stream := smtpd.GenDialogue(g, c, pool, ol)
+		g.Emit("smtp", append(c.Fields(), smtpd.LockStepField(g, stream, i%3))...)
+	}
 	// small message limits with bodies on both sides of them, with and without (truthful, lying) SIZE parameters: a
 	// transaction refused for its size adds nothing to any mailbox, one within the limit is stored whole
 	os := smtpd.Opts{Garbage: 0.03, MaxBody: 60, SizeParams: true, SmallLimit: true, Caps: true}
